@@ -148,6 +148,16 @@ def run_history(job: dict) -> list[dict]:
             out.append({"desc": copy.deepcopy(tdesc), "inputs": st["inputs"], "ev": evs, "route": st["route"] + f"@history{k}",
                         "S": st["S"], "must": "?", "cut": "?", "kinds": None, "dontcare": False})
             continue
+        if st["op"] == "scribble":
+            # what the caller does to a selection it was handed must not reach the pipeline it was selected from (nor a
+            # later selection): take the selection, change its defaults, drop one of its functions
+            with contextlib.suppress(Exception), contextlib.redirect_stdout(io.StringIO()):
+                flat = {n for n, _ in st["inputs"]}
+                sub = pl.subpipeline(inputs=flat or None, output_names=set(st["S"]))
+                for p_ in sorted(sub.topological_generations.root_args)[:2]:
+                    sub.update_defaults({p_: build.py_value({"f": "@scribbled_" + p_, "a": []})})
+                sub.drop(output_name=sub.functions[-1].output_name)
+            continue
         fi = next(i for i, f in enumerate(tdesc["funcs"]) if st["out"] in f["outputs"])
         f = tdesc["funcs"][fi]
         key = f["outputs"][0] if len(f["outputs"]) == 1 else tuple(f["outputs"])
@@ -188,8 +198,12 @@ def history_jobs(rng: random.Random, count: int) -> list[dict]:
                 defaults = {p for f in cur["funcs"] for p, _ in f["defaults"]}
                 _, roots = _closure(cur["funcs"], S, given)
                 I = {r for r in roots if r in given or r not in defaults or rng.random() < 0.3} - set(S)
-                steps.append({"op": "request", "S": sorted(S), "inputs": [[x, pcall.kv(x)] for x in sorted(I)],
-                              "route": rng.choice(ROUTES + ("async_output_names",))})
+                req = {"op": "request", "S": sorted(S), "inputs": [[x, pcall.kv(x)] for x in sorted(I)],
+                       "route": rng.choice(ROUTES + ("async_output_names",))}
+                steps.append(req)
+                if rng.random() < 0.5:      # the caller alters the selection it got, then asks for the same selection again
+                    steps.append({"op": "scribble", "S": req["S"], "inputs": req["inputs"]})
+                    steps.append(dict(req, route=rng.choice(ROUTES)))
             else:
                 owners: dict[str, list[int]] = {}
                 for i, f in enumerate(cur["funcs"]):
@@ -460,6 +474,57 @@ def mapped_case(seed: int) -> list[dict]:
     return out
 
 
+def axis_case(seed: int) -> list[dict]:
+    """Worker: a plain pipeline that gets its MapSpecs from Pipeline.add_mapspec_axis(p, axis="k") (GENERATED MapSpecs);
+    the description TLC judges against is the lifted one (every function that depends on p maps element-wise over k),
+    which must be what the real pipeline reports; then requests for some outputs from the root arguments."""
+    from .c02 import random_desc
+    rng = random.Random(seed)
+    td = random_desc(rng, rng.randint(2, 5))
+    for f in td["funcs"]:
+        for extra in ("retnone", "outperm", "outrenamed", "renamed", "picker", "hook"):
+            f.pop(extra, None)
+        f["defaults"], f["bound"] = [], []
+    prod = {o: f["name"] for f in td["funcs"] for o in f["outputs"]}
+    roots = sorted({q for f in td["funcs"] for q in f["params"]} - set(prod))
+    if not roots:
+        return []
+    p = rng.choice(roots)
+    dep: set[str] = set()                      # names carrying the new axis: p and every output downstream of it
+    lifted = copy.deepcopy(td)
+    carrying = {p}
+    for f in lifted["funcs"]:                  # listed in topological order by construction
+        ins = [q for q in f["params"] if q in carrying]
+        if ins:
+            carrying |= set(f["outputs"])
+            f["has_ms"] = True
+            f["ms"] = {"ins": [{"name": q, "axes": ["k"]} for q in ins], "outs": [{"name": o, "axes": ["k"]} for o in f["outputs"]]}
+    inputs = [[r, {"f": "#arr", "a": [{"f": f"@k_{r}_{j}", "a": []} for j in range(2)]} if r == p else pcall.kv(r)] for r in roots]
+    with contextlib.redirect_stdout(io.StringIO()):
+        pl = build.make_pipeline(pmap.tla_desc_to_py(td))
+        pl.add_mapspec_axis(p, axis="k")
+    def norm(ms: str) -> str:                  # the order in which a MapSpec lists its inputs carries no meaning
+        left, right = ms.split(" -> ")
+        return ", ".join(sorted(x.strip().rstrip("]") + "]" for x in left.split("],"))) + " -> " + right
+    want = sorted(norm(pmap.ms_string(f["ms"])) for f in lifted["funcs"] if f["has_ms"])
+    got = sorted(norm(m) for m in pl.mapspecs_as_strings)
+    if want != got:
+        raise MachineryError(f"add_mapspec_axis({p!r}) gave {got}, the lifted description has {want}")
+    pdesc = pmap.tla_desc_to_py(lifted)
+    outs = sorted(prod)
+    out = []
+    for k in range(3):
+        S = rng.sample(outs, min(len(outs), rng.choice([1, 1, 2])))
+        _, need_roots = _closure(lifted["funcs"], S, set())
+        sub_inputs = [[n, v] for n, v in inputs if n in need_roots]
+        build.LOG.clear()
+        route = ROUTES[(seed + k) % 3]
+        evs = do_route(pl, pdesc, lifted, pmap.inputs_to_py(sub_inputs, {p: "list"}), sorted(S), ["*"], route)
+        out.append({"desc": lifted, "inputs": sub_inputs, "ev": evs, "route": route + "@axis", "S": sorted(S), "must": "?",
+                    "cut": "?", "kinds": {p: "list"}, "dontcare": False, "pdesc": pdesc})
+    return out
+
+
 def random_mapped_traces(seeds: list[int]) -> list[dict]:
     if not seeds:
         return []
@@ -553,6 +618,9 @@ def run(ctx: Ctx) -> None:
         rtraces += [t for ts in pool.map(run_history, hjobs, chunksize=max(1, len(hjobs) // (NPROC * 8))) for t in ts]
     mseeds = [rng.randrange(1 << 30) for _ in range(40 if quick else 1200)]
     mtraces = random_mapped_traces(mseeds)
+    with ProcessPoolExecutor(NPROC, mp_context=mp.get_context("fork")) as pool:       # generated MapSpecs (add_mapspec_axis)
+        aseeds = [rng.randrange(1 << 30) for _ in range(40 if quick else 800)]
+        mtraces += [t for ts in pool.map(axis_case, aseeds, chunksize=max(1, len(aseeds) // (NPROC * 4))) for t in ts]
     for t in rtraces + mtraces:
         ctx.case({"d": t["desc"], "S": t["S"], "i": t["inputs"], "r": t["route"]}, nontrivial(t))
     if mtraces:
